@@ -18,7 +18,7 @@ var lifecycleAlphabet = func() []letter {
 	var out []letter
 	for _, l := range historyAlphabet {
 		switch l.name {
-		case "C1", "C0", "D", "R1", "R0", "T", "S", "Sfail", "Hgood":
+		case "C1", "C0", "D", "R1", "R0", "T", "S", "Sfail", "Hgood", "Hbad":
 			out = append(out, l)
 		}
 	}
